@@ -11,6 +11,8 @@ import (
 	"os"
 	"path/filepath"
 	"sort"
+	"strconv"
+	"strings"
 	"syscall"
 	"time"
 
@@ -19,18 +21,21 @@ import (
 
 // Node is one file-system object, abstractly.
 type Node struct {
-	P    string `json:"p"`              // path relative to the root ("." is the root itself)
-	T    string `json:"t"`              // reg dir lnk fifo sock chr blk
-	C    int    `json:"c"`              // content id (reg): bytes are a function of (C, Sz)
-	Sz   int64  `json:"sz"`             // size (reg)
-	Mt   int64  `json:"mt"`             // mtime seconds
-	Ns   int64  `json:"ns"`             // mtime nanoseconds part
-	Perm int    `json:"perm"`           // permission bits
-	Tgt  string `json:"tgt"`            // link target
-	Rdev int    `json:"rdev"`           // device number
+	P    string `json:"p"`    // path relative to the root ("." is the root itself)
+	T    string `json:"t"`    // reg dir lnk fifo sock chr blk
+	C    int    `json:"c"`    // content id (reg): bytes are a function of (C, Sz)
+	Sz   int64  `json:"sz"`   // size (reg)
+	Mt   int64  `json:"mt"`   // mtime seconds
+	Ns   int64  `json:"ns"`   // mtime nanoseconds part
+	Perm int    `json:"perm"` // permission bits
+	Tgt  string `json:"tgt"`  // link target
+	Rdev int    `json:"rdev"` // device number
 	UID  int    `json:"uid"`
 	GID  int    `json:"gid"`
 	Data []byte `json:"data,omitempty"` // explicit content (overrides C)
+	Of   int    `json:"of,omitempty"`   // with Ed: the content id the edit is applied to (default C)
+	OfSz int64  `json:"ofsz,omitempty"` // ... and its size (default Sz)
+	Ed   string `json:"ed,omitempty"`   // content = Edit(Content(C, Sz), Ed): "ins:off:n" "del:off:n" "rep:off:n" "trunc:n" "ext:n" "zero" "period:p" "high"
 	Hash string `json:"hash,omitempty"` // snapshot only: content digest when C is unknown (-1)
 }
 
@@ -44,6 +49,75 @@ func Content(c int, sz int64) []byte {
 		b[0] = byte(c) // sizes 1.. : ids < 256 differ already in the first byte
 	}
 	return b
+}
+
+// NodeData returns the bytes a regular node stands for.
+func NodeData(n *Node) []byte {
+	if n.Data != nil {
+		return n.Data
+	}
+	if n.Ed != "" && (n.Of != 0 || n.OfSz != 0) {
+		return Edit(Content(n.Of, n.OfSz), n.Ed)
+	}
+	return Edit(Content(n.C, n.Sz), n.Ed)
+}
+
+// Edit derives a variant of data (used for "edited copy of the source as delta basis").
+func Edit(data []byte, ed string) []byte {
+	if ed == "" {
+		return data
+	}
+	var kind string
+	var a, b int
+	parts := strings.Split(ed, ":")
+	kind = parts[0]
+	if len(parts) > 1 {
+		a, _ = strconv.Atoi(parts[1])
+	}
+	if len(parts) > 2 {
+		b, _ = strconv.Atoi(parts[2])
+	}
+	n := len(data)
+	clamp := func(x int) int { return max(0, min(x, n)) }
+	fresh := func(k int) []byte {
+		r := rand.New(rand.NewSource(int64(n)*31 + int64(a)*7 + int64(b)))
+		out := make([]byte, k)
+		r.Read(out)
+		return out
+	}
+	switch kind {
+	case "ins":
+		off := clamp(a)
+		return append(append(append([]byte{}, data[:off]...), fresh(b)...), data[off:]...)
+	case "del":
+		off := clamp(a)
+		end := clamp(a + b)
+		return append(append([]byte{}, data[:off]...), data[end:]...)
+	case "rep":
+		off := clamp(a)
+		end := clamp(a + b)
+		return append(append(append([]byte{}, data[:off]...), fresh(end-off)...), data[end:]...)
+	case "trunc":
+		return append([]byte{}, data[:clamp(a)]...)
+	case "ext":
+		return append(append([]byte{}, data...), fresh(a)...)
+	case "zero":
+		return make([]byte, n)
+	case "period":
+		p := max(a, 1)
+		out := make([]byte, n)
+		for i := range out {
+			out[i] = data[i%p] | 0x80
+		}
+		return out
+	case "high":
+		out := make([]byte, n)
+		for i := range out {
+			out[i] = data[i] | 0x80
+		}
+		return out
+	}
+	return data
 }
 
 func digest(b []byte) string {
@@ -69,10 +143,7 @@ func Build(root string, nodes []Node) error {
 			if err := os.MkdirAll(filepath.Dir(p), 0o755); err != nil {
 				return err
 			}
-			data := n.Data
-			if data == nil {
-				data = Content(n.C, n.Sz)
-			}
+			data := NodeData(&n)
 			if err := os.WriteFile(p, data, 0o644); err != nil {
 				return err
 			}
@@ -132,6 +203,11 @@ func Build(root string, nodes []Node) error {
 type Known map[string]int
 
 func (k Known) Add(c int, sz int64) { k[fmt.Sprintf("%d:%s", sz, digest(Content(c, sz)))] = c }
+func (k Known) AddNode(n *Node) {
+	if n.T == "reg" {
+		k.AddData(n.C, NodeData(n))
+	}
+}
 func (k Known) AddData(c int, data []byte) {
 	k[fmt.Sprintf("%d:%s", len(data), digest(data))] = c
 }
